@@ -8,6 +8,7 @@ mem_limits : check_mem_limits raises exactly when some declared range starts bel
 rolling    : Tensor.addresses_for_rolling_buffer / address_for_coordinate on a real Tensor used as a rolling buffer: every row of
              a stripe's box is addressed, through the (at most two) tiles returned, at slot (row mod buffer height) inside
              [address, address + storage size).
+nhcwb16    : _avoid_nhcwb16_for_shapes keeps the brick format only when every producer/consumer shape equals the tensor's shape.
 regions    : get_region / mem_type_size / get_mem_limits_for_regions: fast scratch is limited to arena_cache_size exactly when spilling is
              enabled; region 0 (constants) is only produced for permanent memory types.
 """
@@ -35,7 +36,7 @@ def ENCODED():
     import ethosu.vela.architecture_features as af
 
     return [u.get_strides, u.get_address, u.get_address_range, u.get_address_ranges, g.check_mem_limits, t.Tensor.addresses_for_rolling_buffer,
-            t.Tensor.address_for_coordinate, t.Tensor.get_strides, t.Tensor.get_augmented_coord, h2n.get_region, h2n.get_mem_limits_for_regions,
+            t.Tensor.address_for_coordinate, t.Tensor.get_strides, t.Tensor.get_augmented_coord, __import__('ethosu.vela.graph_optimiser_util', fromlist=['x'])._avoid_nhcwb16_for_shapes, h2n.get_region, h2n.get_mem_limits_for_regions,
             af.ArchitectureFeatures.mem_type_size, af.ArchitectureFeatures.is_spilling_enabled]
 
 
@@ -192,7 +193,39 @@ def regions(V, accel):
     return cl
 
 
-FUNCS = {"footprint": footprint, "mem_limits": mem_limits, "rolling": rolling, "regions": regions}
+def nhcwb16_shapes(V, nprod, ncons):
+    """brick format (NHCWB16) is only kept when every producer and consumer views the tensor with the tensor's own 4-D shape - otherwise
+    an operator writes/reads it with strides derived from a different shape than the one it was allocated for.  Symbolic shapes."""
+    import ethosu.vela.graph_optimiser_util as gu
+    from ethosu.vela.shape4d import Shape4D
+    from ethosu.vela.operation import Op
+
+    def shp(tag):
+        return [1] + [V.int("%s_%s" % (tag, d), 1, 64) for d in "hwc"]
+
+    ts = shp("tensor")
+    tens = _O(shape=ts)
+    diffs = []
+    prods, conss = [], []
+    for i in range(nprod):
+        s_ = shp("prod%d" % i)
+        prods.append(_O(ofm_shapes=[Shape4D(s_)], ofm=tens, type=Op.Conv2DBias))
+        diffs.append(z3.Or(*[L(a) != L(b) for a, b in zip(ts, s_)]))
+    for i in range(ncons):
+        s_ = shp("cons%d" % i)
+        conss.append(_O(ifm=tens, ifm2=None, ifm_shapes=[Shape4D(s_), None], type=Op.Conv2DBias))
+        diffs.append(z3.Or(*[L(a) != L(b) for a, b in zip(ts, s_)]))
+    tens.ops, tens.consumer_list = prods, conss
+    got = gu._avoid_nhcwb16_for_shapes(tens)
+    return [("NHCWB16 is avoided exactly when some producer/consumer shape differs from the tensor's", z3.BoolVal(bool(got)) == z3.Or(*diffs))]
+
+
+class _O:
+    def __init__(self, **kw):
+        self.__dict__.update(kw)
+
+
+FUNCS = {"nhcwb16_shapes": nhcwb16_shapes, "footprint": footprint, "mem_limits": mem_limits, "rolling": rolling, "regions": regions}
 
 
 def instances(tier, seed):
@@ -213,4 +246,6 @@ def instances(tier, seed):
                     out.append(dict(key="rolling/B%d_w%d_d%d_%s" % (B_h, width, depth, fmt), fn="rolling", params=dict(B_h=B_h, width=width, depth=depth, fmt=fmt)))
     for accel in ("Ethos_U55_128", "Ethos_U65_256"):
         out.append(dict(key="regions/%s" % accel, fn="regions", params=dict(accel=accel)))
+    for nprod, ncons in ((1, 1), (1, 2), (2, 1), (1, 0)):
+        out.append(dict(key="nhcwb16_shapes/p%d_c%d" % (nprod, ncons), fn="nhcwb16_shapes", params=dict(nprod=nprod, ncons=ncons)))
     return out
